@@ -28,7 +28,7 @@
 namespace c19 {
 
 // ---------------------------------------------------------------------------------------------------------------
-// Defect found by this check in the pinned tree (fixed in /repo by 867fed3, patch: /verif/proposed_fixes/C19-next-chunk-size-bound.diff):
+// Defect found by this check in the pinned tree (fixed in /repo by c0bed3f, patch: /verif/proposed_fixes/C19-next-chunk-size-bound.diff):
 // a chunk whose declared length overruns the end of the archive by 1..3 bytes was accepted (archive::next_chunk_size compared ptr_+size
 // instead of ptr_+4+size).  While such a defect is listed as status "known", its input class is excluded by construction (and counted);
 // props/c19.py sets C19_INCLUDE_KNOWN=overrun once known_findings.json lists it as fixed, and regression cases force it.
